@@ -6,7 +6,7 @@ import lib
 from witnesses import WITNESSES, corpus_for
 
 PID = "C01"
-COQ_TARGETS = cp.COQ_TARGETS
+COQ_TARGETS = cp.COQ_TARGETS + ["Proofs/CoveredDefs.vo"]
 KNOWN = ["D19", "D1", "D3", "D4", "D9", "D21"]
 
 
@@ -29,6 +29,25 @@ def transparency_failures(scn, il=None):
     return out
 
 
+def cached_ids_coherent(scn):
+    """each explicit cache id is used with one cached expression (datasets and their derivatives share the
+    Cached node by construction): the coherence hypothesis of C01_history_transparent"""
+    seen = {}
+    for t in list(cp.sub_exprs(scn["exprs"])) + list(cp.sub_exprs(scn["env"])):
+        if t and t[0] == "cached" and t[1] is not None:
+            if seen.setdefault(t[1], repr(t[2])) != repr(t[2]):
+                return False
+    return True
+
+
+def covered_flags(ctx, scns, name):
+    """per scenario, one character per operation: '1' iff the model says the operation satisfies the
+    hypotheses of C01_history_transparent (Proofs/CoveredDefs.v scohb; sound by Proofs/CoveredProofs.v)"""
+    exprs = [core.coq_scenario(s).replace("run_scenario", "covered_ops", 1) for s in scns]
+    outs = ctx.coq_eval(name, cp.REQ + ["Proofs.CoveredDefs"], "", exprs, shard=30)
+    return [o if cached_ids_coherent(s) else "0" * len(o) for s, o in zip(scns, outs)]
+
+
 def generate(ctx, n):
     scns = []
     for i in range(n):
@@ -45,6 +64,27 @@ def run(ctx):
     scns = [s for _, s in corpus] + generate(ctx, n)
     impls, models, mism, stats = cp.correspondence(ctx, scns, "Cases_C01")
     violations, distinct, oracle_checks, tagged = [], set(), 0, {}
+    # the theorem's hypotheses, evaluated by the model on what was generated; inside them the
+    # theorem's conclusion is applied to the implementation as a STRICT oracle (same value, or the
+    # same failure cause and EvaluationError-ness as a fresh cache-free copy)
+    flags = covered_flags(ctx, scns, "Covered_C01")
+    cov = dict(ops=0, covered_ops=0, covered_histories=0, strict_checks=0, covered_with_hit=0)
+    for scn, il, fl in zip(scns, impls, flags):
+        cov["ops"] += len(fl)
+        cov["covered_ops"] += fl.count("1")
+        if fl and set(fl) == {"1"}:
+            cov["covered_histories"] += 1
+            for j, (op, line) in enumerate(zip(scn["ops"], il)):
+                fresh = cp.fresh_eval(scn, op[1], op[4], method=op[0])
+                cov["strict_checks"] += 1
+                if any(t.startswith("get") and t.endswith("T") for t in cp.split(line)[1]):
+                    cov["covered_with_hit"] += 1
+                if cp.split(line)[0] != cp.split(fresh)[0]:
+                    violations.append(dict(desc="inside the hypotheses of C01_history_transparent (computed by the model) an operation on the "
+                                                "long-lived graph differs from the cache-free operation on a fresh copy",
+                                           op_index=j, cached=cp.split(line)[0], uncached=cp.split(fresh)[0], finding=None,
+                                           scenario_repr=cp.dump_scn(scn)))
+                    break
     for scn, il, ml in zip(scns, impls, models):
         fails = transparency_failures(scn, il)
         oracle_checks += sum(1 for op in scn["ops"] if op[0] == "evaluate")
@@ -79,7 +119,8 @@ def run(ctx):
         "correspondence_mismatches": mism[:5],
         "violations": violations,
         "known": known,
-        "distribution": dict(stats, oracle_checks=oracle_checks, oracle_failures_tagged=tagged, scenarios=len(scns)),
+        "distribution": dict(stats, oracle_checks=oracle_checks, oracle_failures_tagged=tagged, scenarios=len(scns),
+                             theorem_hypotheses=cov),
         "exhaustive": False,
         "assumptions": ["user code is deterministic; cyclic template references excluded; floats not generated",
                         "failure comparison is by failing/succeeding (which of several causes surfaces first legitimately differs when the fingerprint is computed first)"],
